@@ -306,6 +306,79 @@ def rule_ranges_all(ctx, M):
     ctx.floor("range constructions under the evaluator", n, 2)
 
 
+def entry_by_counter(M):
+    """discharge rule: `entries_of_player_p[counter_of_player_p]`.  The entry list is non-empty on the way (C08.R-nonempty) and a
+    player's counter stays below that player's entry count (C02.R-odometer-bound: advanced only under idx + 1 < len, otherwise
+    reset to 0) -- so the rule applies only while C02's odometer rule holds on the same tree"""
+    state = {"odometer": None}
+
+    def odometer_holds():
+        if state["odometer"] is None:
+            class Cap:
+                extra = {}
+                tier = "quick"
+
+                def __init__(self):
+                    self.bad = 0
+
+                def violation(self, *a, **k):
+                    self.bad += 1
+
+                def unrecognised(self, *a, **k):
+                    self.bad += 1
+
+                def __getattr__(self, n):
+                    return lambda *a, **k: None
+            cap = Cap()
+            try:
+                from rules import c02
+                c02.rule_odometer_any(cap, M, M.deal)
+            except Exception:
+                cap.bad += 1
+            state["odometer"] = cap.bad == 0
+        return state["odometer"]
+
+    def rule(F_, cg_, site, pr):
+        if site.kind != "index" or site.info.get("container") != M.entry_vec_ty or site.info.get("index_ty") != "usize":
+            return None
+        args = site.info.get("args") or []
+        if len(args) != 2:
+            return None
+        ent, idx = P.strip(args[0]), P.strip(args[1])
+        entries, counters = M.self_field(M.f_entries), M.self_field(M.f_counters)
+
+        def same_player():
+            # entries[i][counters[i]]
+            if ent[0] == "call" and ent[1].endswith("::index") and len(ent[2]) == 2 and P.strip(ent[2][0]) == entries and \
+                    idx[0] == "call" and idx[1].endswith("::index") and len(idx[2]) == 2 and P.strip(idx[2][0]) == counters:
+                return P.strip(ent[2][1]) == P.strip(idx[2][1])
+            # for (i, list) in entries.iter().enumerate() { list[counters[i]] }
+            if ent[0] == "field" and ent[2] == 1 and idx[0] == "call" and idx[1].endswith("::index") and len(idx[2]) == 2 and \
+                    P.strip(idx[2][0]) == counters and P.strip(idx[2][1]) == ("field", ent[1], 0):
+                src, chain = L.iterator_chain(P.strip(ent[1])[1][1][2][0]) if P.strip(ent[1])[0] == "field" and P.strip(ent[1])[1][0] == "variant" else (None, [])
+                names = [c.rsplit("::", 1)[-1] for c in chain if c.rsplit("::", 1)[-1] not in ("into_iter", "deref")]
+                return src is not None and P.strip(src) == entries and names == ["iter", "enumerate"]
+            # for (list, &c) in entries.iter().zip(&counters) { list[c] }
+            if ent[0] == "field" and ent[2] == 0 and idx == ("field", ent[1], 1):
+                it = P.strip(ent[1])
+                if it[0] == "field" and it[1][0] == "variant" and it[1][1][0] == "call":
+                    zc = [x for x in P.walk(it[1][1]) if x[0] == "call" and x[1].rsplit("::", 1)[-1] == "zip" and len(x[2]) == 2]
+                    if len(zc) == 1:
+                        a_src, a_ch = L.iterator_chain(zc[0][2][0])
+                        b_src, b_ch = L.iterator_chain(zc[0][2][1])
+                        plain = lambda ch: all(c.rsplit("::", 1)[-1] in ("iter", "into_iter", "deref") for c in ch)
+                        return P.strip(a_src) == entries and P.strip(b_src) == counters and plain(a_ch) and plain(b_ch)
+            return False
+        try:
+            ok = same_player()
+        except (IndexError, TypeError):
+            ok = False
+        if ok and odometer_holds():
+            return "R-entry-by-counter"
+        return None
+    return rule
+
+
 def run(ctx):
     ctx.explanation = ("static: call graph (resolved callees, closures, trait-bound callbacks) of everything reachable "
                        "from FlopExhaustiveEvaluator::{new,scope,into_iter} and Iterator::next must be acyclic (bounded "
@@ -323,7 +396,8 @@ def run(ctx):
     except Unrecognised as e:
         ctx.unrecognised(e.rule, e.msg, e.fn, e.line)
     rule_ranges_all(ctx, M)
-    panics.audit(ctx, F, M.cg, M.entries, "C08", configs=("lib", "lib-nooverflow") if ctx.tier == "thorough" else ("lib",))
+    panics.audit(ctx, F, M.cg, M.entries, "C08", configs=("lib", "lib-nooverflow") if ctx.tier == "thorough" else ("lib",),
+                 extra_discharge=(entry_by_counter(M),))
     if ctx.tier == "thorough":
         from sa import xref
         from rules import selftest
